@@ -268,7 +268,11 @@ pub fn run(seed: u64, count: usize, outdir: &str) -> std::io::Result<i32> {
         }
         // ---- the value lane of the JIT's gradient evaluation is the interpreter's, at every point (rounding-edge values included)
         if let (Ok(vr), Ok(jr)) = (&vrows, &jrows) {
-            'outer: for (k, (a, b)) in vr.iter().zip(jr).enumerate() { for (o, (x, y)) in a.iter().zip(b).enumerate() {
+            'outer: for (k, (a, b)) in vr.iter().zip(jr).enumerate() {
+                { let mut orc = crate::refeval::Oracle::default(); let env = |v: Var| pts[k][var_id(v, &dag.vs) as usize];
+                  let _ = crate::refeval::eval_arena(&dag.ctx, &env, &mut orc);
+                  if orc.zero_tie || orc.atan00 || orc.atan_y_zero || orc.abs_of_neg_zero { continue; } }
+                for (o, (x, y)) in a.iter().zip(b).enumerate() {
                 // (finite values only: an infinity out of a division by a zero carries the sign of that zero, which min / max may leave open - C02)
                 if canon_bits(x.v) != canon_bits(y.v) && !(x.v == 0.0 && y.v == 0.0) && x.v.is_finite() && y.v.is_finite() {
                     bad.push(format!("kind=jit-gradient-value-differs backend=jit point {k} output {o} ({}): value lane {} interpreter {}", op_name(&dag, roots[o.min(roots.len() - 1)]), y.v, x.v)); break 'outer; } } }
